@@ -12,6 +12,7 @@ Inductive op :=
 | ODecPkts (data : list Z)
 | OParseHeader (h : list Z)
 | OSetDict (es : list (list Z * Z))   (* SetDictionary on an empty dictionary; es has unique routes *)
+| OFramed (chunks : list (list Z))  (* peer writes these chunks one by one over TCP, then closes; GetNextMessage until it fails *)
 | OSweep (k : Z).                     (* every byte string of length <= k through Decode / packet Decode / ParseHeader *)
 
 Inductive obs :=
@@ -20,6 +21,7 @@ Inductive obs :=
 | RPkts (l : list pkt)
 | RHdr (size typ : Z)
 | RDict (ok : bool) (routes : list (list Z * Z))   (* sorted by code; [] when not ok *)
+| RFrames (ms : list (list Z)) (e : fend)
 | RSweep (panics : Z)
 | RErr (e : err)
 | RPanic.
@@ -54,6 +56,7 @@ Definition run_op (o : op) : obs :=
   | OSetDict es =>
       let '(d, ok) := set_dictionary es empty_dict in
       RDict ok (if ok then sort_code (d_routes d) else [])
+  | OFramed chunks => let '(ms, e) := read_frames (concat chunks) in RFrames ms e
   | OSweep _ => RSweep 0   (* theorem C06_total: no input panics *)
   end.
 
@@ -62,6 +65,13 @@ Definition err_eqb (a b : err) : bool :=
   | EWrongType, EWrongType | EInvalid, EInvalid | ERouteNotFound, ERouteNotFound
   | EInflate, EInflate | EPktType, EPktType | EPktSize, EPktSize | EPktHeader, EPktHeader
   | EFuel, EFuel => true
+  | _, _ => false
+  end.
+
+Definition fend_eqb (a b : fend) : bool :=
+  match a, b with
+  | FClosed, FClosed | FShortBody, FShortBody | FFuel, FFuel => true
+  | FBad x, FBad y => err_eqb x y
   | _, _ => false
   end.
 
@@ -76,6 +86,7 @@ Definition obs_eqb (a b : obs) : bool :=
   | RPkts x, RPkts y => list_eqb (pair_eqb Z.eqb zlist_eqb) x y
   | RHdr s t, RHdr s' t' => Z.eqb s s' && Z.eqb t t'
   | RDict o r, RDict o' r' => Bool.eqb o o' && list_eqb (pair_eqb zlist_eqb Z.eqb) r r'
+  | RFrames x e, RFrames y e' => list_eqb zlist_eqb x y && fend_eqb e e'
   | RSweep x, RSweep y => Z.eqb x y
   | RErr x, RErr y => err_eqb x y
   | RPanic, RPanic => true
@@ -101,6 +112,11 @@ Definition monitor_op (o : op) (b : obs) : bool :=
         | Ok m' => msg_eqb m' (carried m) || negb (len (mroute m) <=? 255)
         | _ => negb (len (mroute m) <=? 255)
         end
+    | OFramed chunks, RFrames ms e =>
+        (* every message handed up is one whole packet, and together with what the end kind leaves
+           unread they are a prefix of what was sent *)
+        forallb (fun m => match decode_pkts m with Ok [p] => zlist_eqb (enc_bytes p) m | _ => false end) ms
+        && zlist_eqb (concat ms) (firstn (length (concat ms)) (concat chunks))
     | OEncPkt t data, RBytes l =>
         match decode_pkts l with Ok [p] => pair_eqb Z.eqb zlist_eqb p (t, data) | _ => false end
     | _, _ => true
